@@ -1325,7 +1325,9 @@ class QueryBuilder(Selectable, Term):  # type:ignore[misc]
     def groupby(self, *terms: str | int | Term) -> "Self":  # type:ignore[return]
         for term in terms:
             if isinstance(term, str):
+                # a column of the first FROM item - or the alias of a select item, known when the statement is rendered
                 term = Field(term, table=self._from[0])
+                term._given_by_name = True
             elif isinstance(term, int):
                 term = _column_position(term)
 
@@ -1980,7 +1982,11 @@ class QueryBuilder(Selectable, Term):  # type:ignore[misc]
         clauses = []
         selected_aliases = {s.alias for s in self._selects}
         for field in self._groupbys:
-            if (alias := field.alias) and alias in selected_aliases:
+            alias = field.alias
+            if not alias and getattr(field, "_given_by_name", False):
+                # groupby("n") where a select item is called n: the name is that item's
+                alias = field.name  # type:ignore[attr-defined]
+            if alias and alias in selected_aliases:
                 if ctx.groupby_alias:
                     clauses.append(format_identifier(alias, ctx.alias_quote_char or ctx.quote_char))
                 else:
